@@ -271,8 +271,24 @@ def call_class(run: Run):
         i_tr = pos(lambda s: s.startswith("transcoded_request = ") and s.endswith("._get_transcoded_request(http_options, request)"))
         i_body = pos(lambda s: s.startswith("body = ") and s.endswith("._get_request_body_json(transcoded_request)"))
         i_q = pos(lambda s: s.startswith("query_params = ") and s.endswith("._get_query_params_json(transcoded_request)"))
-        want_resp = "._get_response(self._host, metadata, query_params, self._session, timeout, transcoded_request" + (", body)" if body is True else ")")
-        i_resp = pos(lambda s: s.startswith("response = ") and s.endswith(want_resp))
+        # the send: `response = <...>._get_response(...)` whose arguments, bound to the helper's parameters the way Python binds them, hand over the
+        # host, the metadata, the query, the session, the transcoded request and (iff the binding has a body) the body
+        from props.C09 import bind_call
+        gr_ = _fn(cls, "_get_response")
+
+        def is_send(stmt):
+            if not (isinstance(stmt, ast.Assign) and ast.unparse(stmt.targets[0]) == "response"):
+                return False
+            c = stmt.value.value if isinstance(stmt.value, ast.Await) else stmt.value
+            if not (isinstance(c, ast.Call) and isinstance(c.func, ast.Attribute) and c.func.attr == "_get_response") or gr_ is None:
+                return False
+            b = bind_call(c, gr_)
+            if b is None:
+                return False
+            got = {k: (ast.unparse(v) if not isinstance(v, tuple) else "default:" + ast.unparse(v[1])) for k, v in b.items()}
+            want_b = {"host": "self._host", "metadata": "metadata", "query_params": "query_params", "session": "self._session", "transcoded_request": "transcoded_request"}
+            return all(got.get(k) == v for k, v in want_b.items()) and (got.get("body") == "body" if body is True else got.get("body") in (None, "default:None"))
+        i_resp = next((i for i, stmt in enumerate(st) if is_send(stmt)), None)
         order_ok = None not in (i_opt, i_tr, i_q, i_resp) and i_opt < i_tr < i_q < i_resp and (body == "?" or (i_body is not None) == body) and \
             (i_body is None or i_tr < i_body < i_resp)
         run.table(f"{tag}:pipeline-options-transcode-body-query-send-in-order", bool(order_ok), detail=str([i_opt, i_tr, i_body, i_q, i_resp]), group="rest.call:pipeline")
